@@ -122,6 +122,11 @@ func genInputValue(r *rand.Rand, t gen.T, depth int) ref.Value {
 // ---- directed compositions (single features cannot reach these)
 
 var c01Directed = []string{
+	// inside a function every iteration of for-in has its own key and value variables, and they are new
+	// variables even where they take over the stack slot of a captured variable of a finished block
+	"run := func() { fs := []; for k, v in [7, 8, 9] { fs = append(fs, func() { return [k, v] }) }; w := []; for i := 0; i < len(fs); i++ { w = append(w, fs[i]()) }; return w }\nres := run()",
+	"run := func() {\n  get := undefined\n  if true {\n    a := 1\n    b := 2\n    c := 3\n    get = func() { return [a, b, c] }\n  }\n  sum := 0\n  for k, v in [70, 80, 90] {\n    sum += k + v\n  }\n  return [get(), sum]\n}\nres := run()",
+	"run := func(xs) { fs := []; for v in xs { t := [v]; fs = append(fs, func() { t = append(t, v); return t }) }; return [fs[0](), fs[1](), fs[0]()] }\nres := run(\"ab\")",
 	"a := [1,2,3]; b := a + [4]; c := a + [5]; d := a + []; d[0] = 9",
 	"x := bytes(\"abcdef\"); s := x[0:2]; t := s + bytes(\"X\"); u := s + bytes(\"YZ\")",
 	"a := [1,2,3,4,5]; s := a[1:3]; s[0] = 99; t := a[:2] + a[3:]; t[0] = -1",
@@ -176,6 +181,12 @@ func (c *c01) RunCase(r *fw.Rec, cs fw.Case) {
 			opts.ClosureHeavy = true
 		case 1:
 			opts.ControlHeavy = true
+		}
+		if rng.Intn(3) == 0 {
+			// closures may capture loop-scoped variables and outlive the iteration (the model fixes the
+			// placement, so the scope-dependent sharing rules are part of what is compared)
+			opts.CaptureLoopVars = true
+			opts.ClosureHeavy = opts.ClosureHeavy || rng.Intn(2) == 0
 		}
 		if rng.Intn(10) < 3 {
 			n := 1 + rng.Intn(4)
